@@ -281,6 +281,21 @@ pub fn run(run: &mut Run) -> PResult {
         }
     }
     run.sample(json!({"card": "A♠", "shifted": card::render(card::DECK[0].shift_suit()), "four_shifts": card::render(card::DECK[0].shift_suit().shift_suit().shift_suit().shift_suit())}));
+    count_soak(run, "suit shifts of cards and of hands", (1 << 26) + (1 << 12), &|n| {
+        let c = card::DECK[(n % 52) as usize];
+        if c.shift_suit() != card::shift(c) {
+            return Err(format!("shift_suit({}) = {}", card::render(c), card::render(c.shift_suit())));
+        }
+        if n % 16 == 0 {
+            let d = card::DECK;
+            let w = [c, d[((n / 52) % 52) as usize], 0, d[((n / 7) % 52) as usize], d[((n / 3) % 52) as usize]];
+            let got = Five::from(w).shift_suit().to_arr();
+            if got != w.map(card::shift) {
+                return Err(format!("shifting [{}] gave [{}]", card::render_hand(&w), card::render_hand(&got)));
+            }
+        }
+        Ok(())
+    })?;
     hands::<5>(run, 1)?;
     hands::<6>(run, 1)?;
     hands::<7>(run, if run.tier == Tier::Thorough { 1 } else if run.is_twin() { 32 } else { 8 })?;
@@ -312,7 +327,10 @@ pub fn run(run: &mut Run) -> PResult {
 }
 
 pub fn check_case(clause: &str, case: &Value) -> Result<(), String> {
-    if clause.ends_with(".after_disturbance") || clause.ends_with(".concurrent") || clause.ends_with(".concurrent_cold_start") {
+    if clause.ends_with(".soak") {
+        return Err("the shift soak is replayed by running ./check C08 quick".into());
+    }
+    if clause.ends_with(".after_disturbance") || clause.ends_with(".concurrent") || clause.ends_with(".concurrent_cold_start") || clause.ends_with(".after_repetition") {
         return replay_after_disturbance(case, check_case);
     }
     match clause {
@@ -352,3 +370,4 @@ pub fn check_case(clause: &str, case: &Value) -> Result<(), String> {
 
 #[allow(dead_code)]
 const _R: usize = RELABELLINGS;
+
